@@ -882,7 +882,52 @@ def case_sweep(ctx, case):
     ctx.oracle(after[3] == before[3], f'{CLS[kind]} {opname}: id {before[3]!r} -> {after[3]!r}', case)
 
 
-RUNNERS = {'setunits': case_setunits, 'arith': case_arith, 'convert': case_convert, 'map': case_map,
+def units_wire_close(ua, ub, k=TOL):
+    (ma, ba), (mb, bb) = ua.split('@'), ub.split('@')
+    return ba == bb and all(abs(Fraction(p) - Fraction(q)) <= abs(Fraction(q)) / 2 ** k
+                            for p, q in zip(ma.split(','), mb.split(',')))
+
+
+def case_rewrap(ctx, case):
+    """`cls(x)` keeps the units, `cls(x, units=u)` overrides them, a bare table is `1 dimensionless`."""
+    d, spec = case['neuron'], case['spec']
+    kind = d['k']
+    cls = {'T': navis.TreeNeuron, 'M': navis.MeshNeuron}[kind]
+    x = build(d)
+    default = case.get('default', False)
+    hd = 'D' if default else ' '.join(unit_args(spec))
+    try:
+        y = cls(x) if default else cls(x, units=unit_obj(spec))
+        impl = md_wire(y)
+    except (ValueError, TypeError):
+        y, impl = None, 'ERR'
+    model = ctx.ask(f'c15.reinit {hd} | {wire(x, kind)}')
+    ctx.count('rewrap', f"{CLS[kind]}/{'default' if default else ('raises' if y is None else 'explicit')}")
+
+    def same(a, b):
+        if a == 'ERR' or b == 'ERR':
+            return a == b
+        (ua, *ra), (ub, *rb) = a.split(';'), b.split(';')
+        return ra == rb and units_wire_close(ua, ub)
+    ctx.corr(True, same(impl, model), f'{CLS[kind]}(x, units={"default" if default else spec!r}): impl={impl} model={model}', case)
+    if y is None:
+        return
+    if default:
+        ctx.oracle(md(y) == md(x), f'{CLS[kind]}(x): (units, name, id) {md_wire(x)} -> {md_wire(y)}', case,
+                   signature=f'{CLS[kind]}(x)/units-lost' if md(y)[:2] == ((1, 1, 1), 'D') and md(y)[2:] == md(x)[2:] else None)
+    else:
+        ref = build(dict(d, conns=[]), units=unit_obj(spec))
+        ctx.oracle(md(y) == md(ref), f'{CLS[kind]}(x, units={spec!r}) has units {y.units!r}, expected {ref.units!r} '
+                                     f'(name/id {y.name!r}/{y.id!r})', case)
+    # construction from a bare table: dimensionless
+    if kind == 'T':
+        z = navis.TreeNeuron(x.nodes.copy())
+        ctx.corr(units_wire(z), ctx.ask('c15.fromtable D'), 'TreeNeuron(table) units vs model', case)
+        ctx.oracle(bool(z.units.dimensionless) and float(z.units.magnitude) == 1.0,
+                   f'TreeNeuron(table) without units is {z.units!r}, expected 1 dimensionless', case)
+
+
+RUNNERS = {'rewrap': case_rewrap, 'setunits': case_setunits, 'arith': case_arith, 'convert': case_convert, 'map': case_map,
            'strarg': case_strarg, 'sweep': case_sweep}
 
 
@@ -942,6 +987,11 @@ def gen_cases(ctx):
         u, _ = r.choice(STR_UNITS)
         yield 'strarg', {'neuron': tree_desc(r), 'fn': fns[i % len(fns)], 'units': u, 'k': r.choice([0.5, 2, 8, 0.125, 4]),
                          'steps': r.randint(1, 14), 'fmt': r.randint(0, 4)}
+    # (f') re-wrapping: default keeps, explicit units override, bare table is dimensionless
+    specs = [sp[0] for sp in SPELLINGS.values()] + BAD_UNITS[:2]
+    for i in range(ctx.budget(40, 400)):
+        kind = 'TM'[i % 2]
+        yield 'rewrap', {'neuron': gen_neuron(r, kind, nmax=5), 'spec': r.choice(specs), 'default': i % 4 == 0}
     # (f) metadata sweep
     for rep in range(ctx.budget(3, 16)):
         for kind in KINDS:
